@@ -98,6 +98,9 @@ pub open spec fn wf_weak_seq(s: Seq<BlockRange>) -> bool {
     &&& forall|i: int| 0 <= i < s.len() ==> r_valid(#[trigger] s[i])
     &&& forall|i: int, j: int| 0 <= i < j < s.len() ==> (#[trigger] s[i])@.end < (#[trigger] s[j])@.start
 }
+pub open spec fn edge_has(s: Seq<BlockRange>, h: int) -> bool {
+    exists|k: int| 0 <= k < s.len() && ((#[trigger] s[k])@.start == h || s[k]@.end == h)
+}
 pub open spec fn seq_has(s: Seq<BlockRange>, h: int) -> bool {
     exists|i: int| 0 <= i < s.len() && r_has(#[trigger] s[i], h)
 }
@@ -262,16 +265,35 @@ pub open spec fn is_left_piece(s: Seq<BlockRange>, a: int, r: BlockRange, x: Blo
 }
 
 // t1 = base with optional right piece, t2 = t1 with optional left piece
-pub proof fn lemma_remove(s: Seq<BlockRange>, a: int, b: int, r: BlockRange, t1: Seq<BlockRange>, t2: Seq<BlockRange>)
-    requires
-        rm_pre(s, a, b, r),
-        r@.end < s[b]@.end ==> t1.len() == cut(s, a, b).len() + 1 && is_right_piece(s, b, r, t1[a]) && t1 == cut(s, a, b).insert(a, t1[a]),
-        !(r@.end < s[b]@.end) ==> t1 == cut(s, a, b),
-        s[a]@.start < r@.start ==> t2.len() == t1.len() + 1 && is_left_piece(s, a, r, t2[a]) && t2 == t1.insert(a, t2[a]),
-        !(s[a]@.start < r@.start) ==> t2 == t1,
-    ensures
-        wf_seq(t2),
-        forall|h: int| #![trigger seq_has(t2, h)] seq_has(t2, h) == (seq_has(s, h) && !r_has(r, h)),
+pub open spec fn rm_shape(s: Seq<BlockRange>, a: int, b: int, r: BlockRange, t1: Seq<BlockRange>, t2: Seq<BlockRange>) -> bool {
+    &&& rm_pre(s, a, b, r)
+    &&& (r@.end < s[b]@.end ==> t1.len() == cut(s, a, b).len() + 1 && is_right_piece(s, b, r, t1[a]) && t1 == cut(s, a, b).insert(a, t1[a]))
+    &&& (!(r@.end < s[b]@.end) ==> t1 == cut(s, a, b))
+    &&& (s[a]@.start < r@.start ==> t2.len() == t1.len() + 1 && is_left_piece(s, a, r, t2[a]) && t2 == t1.insert(a, t2[a]))
+    &&& (!(s[a]@.start < r@.start) ==> t2 == t1)
+}
+
+pub proof fn lemma_cut_has(s: Seq<BlockRange>, a: int, b: int, h: int)
+    requires 0 <= a <= b < s.len()
+    ensures seq_has(cut(s, a, b), h) == (exists|k: int| 0 <= k < s.len() && !(a <= k <= b) && r_has(#[trigger] s[k], h))
+{
+    let base = cut(s, a, b);
+    if seq_has(base, h) {
+        let k = choose|k: int| 0 <= k < base.len() && r_has(#[trigger] base[k], h);
+        lemma_cut_index(s, a, b, k);
+        let sk = if k < a { k } else { k + (b + 1 - a) };
+        assert(r_has(s[sk], h));
+    }
+    if exists|k: int| 0 <= k < s.len() && !(a <= k <= b) && r_has(#[trigger] s[k], h) {
+        let k = choose|k: int| 0 <= k < s.len() && !(a <= k <= b) && r_has(#[trigger] s[k], h);
+        if k < a { lemma_cut_index(s, a, b, k); assert(r_has(base[k], h)); }
+        else { lemma_cut_index(s, a, b, k - (b + 1 - a)); assert(r_has(base[k - (b + 1 - a)], h)); }
+    }
+}
+
+pub proof fn lemma_remove_wf(s: Seq<BlockRange>, a: int, b: int, r: BlockRange, t1: Seq<BlockRange>, t2: Seq<BlockRange>)
+    requires rm_shape(s, a, b, r, t1, t2)
+    ensures wf_seq(t1), wf_seq(t2)
 {
     let base = cut(s, a, b);
     lemma_cut_wf(s, a, b);
@@ -279,7 +301,6 @@ pub proof fn lemma_remove(s: Seq<BlockRange>, a: int, b: int, r: BlockRange, t1:
     assert(touches(s[b], r));
     let has_r = r@.end < s[b]@.end;
     let has_l = s[a]@.start < r@.start;
-    // neighbours of the hole
     assert forall|k: int| 0 <= k < a implies (#[trigger] base[k])@.end + 1 < s[a]@.start by {
         lemma_cut_index(s, a, b, k);
     }
@@ -303,28 +324,36 @@ pub proof fn lemma_remove(s: Seq<BlockRange>, a: int, b: int, r: BlockRange, t1:
         }
         lemma_wf_insert(t1, a, t2[a]);
     }
-    assert forall|h: int| #![trigger seq_has(t2, h)] seq_has(t2, h) == (seq_has(s, h) && !r_has(r, h)) by {
-        if has_r { lemma_has_insert(base, a, t1[a], h); }
-        if has_l { lemma_has_insert(t1, a, t2[a], h); }
-        // base membership <-> membership in s outside a..=b
-        if seq_has(base, h) {
-            let k = choose|k: int| 0 <= k < base.len() && r_has(#[trigger] base[k], h);
-            lemma_cut_index(s, a, b, k);
-            let sk = if k < a { k } else { k + (b + 1 - a) };
-            assert(r_has(s[sk], h));
-            assert(!touches(s[sk], r));
+}
+
+pub proof fn lemma_remove_has(s: Seq<BlockRange>, a: int, b: int, r: BlockRange, t1: Seq<BlockRange>, t2: Seq<BlockRange>, h: int)
+    requires rm_shape(s, a, b, r, t1, t2)
+    ensures seq_has(t2, h) == (seq_has(s, h) && !r_has(r, h))
+{
+    let base = cut(s, a, b);
+    assert(touches(s[a], r));
+    assert(touches(s[b], r));
+    let has_r = r@.end < s[b]@.end;
+    let has_l = s[a]@.start < r@.start;
+    if has_r { lemma_has_insert(base, a, t1[a], h); }
+    if has_l { lemma_has_insert(t1, a, t2[a], h); }
+    lemma_cut_has(s, a, b, h);
+    // (1) membership in base: outside a..=b, and then never in r
+    if seq_has(base, h) {
+        let k = choose|k: int| 0 <= k < s.len() && !(a <= k <= b) && r_has(#[trigger] s[k], h);
+        assert(!touches(s[k], r));
+    }
+    // (2) the two pieces are parts of s[b] / s[a] outside r
+    if has_r && r_has(t1[a], h) { assert(r_has(s[b], h)); }
+    if has_l && r_has(t2[a], h) { assert(r_has(s[a], h)); }
+    // (3) anything of s outside r is in base or in a piece
+    if seq_has(s, h) && !r_has(r, h) {
+        let k = choose|k: int| 0 <= k < s.len() && r_has(#[trigger] s[k], h);
+        if a <= k <= b {
+            if k > a { assert(s[a]@.end + 1 < s[k]@.start); }
+            if k < b { assert(s[k]@.end + 1 < s[b]@.start); }
+            assert(touches(s[k], r));
         }
-        if seq_has(s, h) && !r_has(r, h) {
-            let k = choose|k: int| 0 <= k < s.len() && r_has(#[trigger] s[k], h);
-            if k < a { lemma_cut_index(s, a, b, k); assert(r_has(base[k], h)); }
-            else if k > b { lemma_cut_index(s, a, b, k - (b + 1 - a)); assert(r_has(base[k - (b + 1 - a)], h)); }
-            else {
-                if k > a { assert(s[a]@.end + 1 < s[k]@.start); }
-                if k < b { assert(s[k]@.end + 1 < s[b]@.start); }
-            }
-        }
-        if has_r && r_has(t1[a], h) { assert(r_has(s[b], h)); }
-        if has_l && r_has(t2[a], h) { assert(r_has(s[a], h)); }
     }
 }
 
@@ -430,6 +459,76 @@ pub proof fn lemma_pop_tail(s: Seq<BlockRange>, t: Seq<BlockRange>)
             if k > 0 { assert(t[k - off] == s[k]); assert(r_has(t[k - off], h)); }
             else { assert(r_has(t[0], h)); }
         }
+    }
+}
+
+
+pub proof fn lemma_view_bounds(s: Seq<BlockRange>)
+    requires wf_seq(s)
+    ensures forall|h: int| seq_has(s, h) ==> 1 <= h <= u64::MAX
+{
+    assert forall|h: int| seq_has(s, h) implies 1 <= h <= u64::MAX by {
+        let k = choose|k: int| 0 <= k < s.len() && r_has(#[trigger] s[k], h);
+        assert(r_valid(s[k]));
+    }
+}
+
+
+// ---- cardinality: the sum of the range lengths of a wf sequence is the cardinality of its view ----
+pub open spec fn iv(a: int, b: int) -> ISet<int> { ISet::new(|h: int| a <= h <= b) }
+pub open spec fn seq_view(s: Seq<BlockRange>) -> ISet<int> { ISet::new(|h: int| seq_has(s, h)) }
+
+pub proof fn lemma_iv_len(a: int, b: int)
+    ensures iv(a, b).finite(), iv(a, b).len() == (if a <= b { b - a + 1 } else { 0 })
+    decreases (if b >= a { b - a + 1 } else { 0 })
+{
+    broadcast use vstd::iset::group_iset_lemmas;
+    if a > b {
+        assert(iv(a, b) =~= ISet::<int>::empty());
+    } else {
+        lemma_iv_len(a, b - 1);
+        assert(iv(a, b) =~= iv(a, b - 1).insert(b));
+    }
+}
+pub proof fn lemma_disj_union_len(x: ISet<int>, y: ISet<int>)
+    requires x.finite(), y.finite(), x.disjoint(y)
+    ensures x.union(y).finite(), x.union(y).len() == x.len() + y.len()
+{
+    broadcast use vstd::iset::group_iset_lemmas;
+    vstd::iset_lib::lemma_iset_disjoint_lens(x, y);
+}
+pub proof fn lemma_seq_len_card(s: Seq<BlockRange>)
+    requires wf_seq(s)
+    ensures seq_view(s).finite(), seq_view(s).len() == seq_len(s)
+    decreases s.len()
+{
+    broadcast use vstd::iset::group_iset_lemmas;
+    if s.len() == 0 {
+        assert(seq_view(s) =~= ISet::<int>::empty());
+    } else {
+        let p = s.drop_last();
+        let r = s.last();
+        assert forall|i: int| 0 <= i < p.len() implies r_valid(#[trigger] p[i]) by { assert(p[i] == s[i]); }
+        assert forall|i: int, j: int| 0 <= i < j < p.len() implies (#[trigger] p[i])@.end + 1 < (#[trigger] p[j])@.start by { assert(p[i] == s[i]); assert(p[j] == s[j]); }
+        lemma_seq_len_card(p);
+        lemma_iv_len(r@.start as int, r@.end as int);
+        assert(r_set(r) =~= iv(r@.start as int, r@.end as int));
+        assert(r_valid(s[s.len() - 1]));
+        assert forall|h: int| seq_has(s, h) == (seq_has(p, h) || r_has(r, h)) by {
+            assert(s =~= p.push(r));
+            lemma_has_push(p, r, h);
+        }
+        assert(seq_view(s) =~= seq_view(p).union(r_set(r)));
+        assert(seq_view(p).disjoint(r_set(r))) by {
+            assert forall|h: int| !(seq_view(p).contains(h) && r_set(r).contains(h)) by {
+                if seq_has(p, h) && r_has(r, h) {
+                    let k = choose|k: int| 0 <= k < p.len() && r_has(#[trigger] p[k], h);
+                    assert(p[k] == s[k]);
+                    assert(s[k]@.end + 1 < s[s.len() - 1]@.start);
+                }
+            }
+        }
+        lemma_disj_union_len(seq_view(p), r_set(r));
     }
 }
 
@@ -782,7 +881,10 @@ impl BlockRanges {
         let ghost t1 = self.0@;
 //@hint before "Ok(())" 2
         proof {
-            lemma_remove(old(self).0@, start_idx as int, end_idx as int, *range, t1, self.0@);
+            lemma_remove_wf(old(self).0@, start_idx as int, end_idx as int, *range, t1, self.0@);
+            assert forall|h: int| #![trigger seq_has(self.0@, h)] seq_has(self.0@, h) == (seq_has(old(self).0@, h) && !r_has(*range, h)) by {
+                lemma_remove_has(old(self).0@, start_idx as int, end_idx as int, *range, t1, self.0@, h);
+            }
             assert(self@ =~= old(self)@.difference(r_set(*range)));
         }
 //@end
@@ -821,7 +923,7 @@ impl BlockRanges {
 //@props C17
     pub fn len(&self) -> (n: u64)
         requires self.wf()
-        ensures n == seq_len(self.0@)
+        ensures n == seq_len(self.0@), self@.finite(), n == self@.len()
 //@sub E8 "self.0.iter().map(|r| r.len()).sum()"
         let mut __acc: u64 = 0;
         let mut __i: usize = 0;
@@ -843,7 +945,7 @@ impl BlockRanges {
             __i += 1;
             __acc += r.len();
         }
-        proof { assert(self.0@.subrange(0, self.0@.len() as int) =~= self.0@); }
+        proof { assert(self.0@.subrange(0, self.0@.len() as int) =~= self.0@); lemma_seq_len_card(self.0@); }
         __acc
 //@end
 
@@ -1182,6 +1284,76 @@ impl BlockRanges {
             assert(self.0@.subrange(0, self.0@.len() as int) =~= self.0@);
             assert(inverse@ =~= full.difference(self@));
         }
+//@end
+
+
+//@fn impl BitOr for BlockRanges :: bitor
+//@props C17
+//@mutself
+    pub fn bitor(self, rhs: BlockRanges) -> (r: BlockRanges)
+        requires self.wf(), rhs.wf()
+        ensures r.wf(), r@ == self@.union(rhs@)
+//@end
+
+//@fn impl BitAndAssign<&BlockRanges> for BlockRanges :: bitand_assign
+//@props C17
+    pub fn bitand_assign(&mut self, rhs: &BlockRanges)
+        requires old(self).wf(), rhs.wf()
+        ensures final(self).wf(), final(self)@ == old(self)@.intersect(rhs@)
+//@sub E9-op "*self = !(!self.clone() | !rhs.clone());" => "*self = self.clone().not().bitor(rhs.clone().not()).not();"
+//@hint exit
+        proof {
+            lemma_view_bounds(old(self).0@);
+            lemma_view_bounds(rhs.0@);
+            assert(self@ =~= old(self)@.intersect(rhs@));
+        }
+//@end
+
+//@fn impl BitAnd<&BlockRanges> for BlockRanges :: bitand
+//@props C17
+//@mutself
+    pub fn bitand(self, rhs: &BlockRanges) -> (r: BlockRanges)
+        requires self.wf(), rhs.wf()
+        ensures r.wf(), r@ == self@.intersect(rhs@)
+//@end
+
+
+//@fn impl BlockRanges :: edges
+//@props C17
+    pub fn edges(&self) -> (r: BlockRanges)
+        requires self.wf()
+        ensures r.wf(), r@ == ISet::new(|h: int| edge_has(self.0@, h))
+//@sub E1 "edges .insert_relaxed(start..=start)" => "edges .insert_relaxed(&(start..=start))"
+//@sub E1 "edges .insert_relaxed(end..=end)" => "edges .insert_relaxed(&(end..=end))"
+//@hint before "for range in self.0.iter() {"
+        proof { assert(edges@ =~= ISet::new(|h: int| edge_has(self.0@.subrange(0, 0), h))); }
+//@for 1
+//@loop 1
+            invariant
+                __i1 <= self.0.len(), self.wf(), edges.wf(),
+                edges@ == ISet::new(|h: int| edge_has(self.0@.subrange(0, __i1 as int), h)),
+            decreases self.0.len() - __i1
+//@hint after ".expect(\"BlockRanges always holds valid ranges\");" 2
+            proof {
+                let pre = self.0@.subrange(0, __i1 as int - 1);
+                let cur = self.0@.subrange(0, __i1 as int);
+                let x = self.0@[__i1 - 1];
+                assert(cur =~= pre.push(x));
+                assert forall|h: int| edge_has(cur, h) == (edge_has(pre, h) || h == x@.start || h == x@.end) by {
+                    if edge_has(pre, h) {
+                        let k = choose|k: int| 0 <= k < pre.len() && ((#[trigger] pre[k])@.start == h || pre[k]@.end == h);
+                        assert(cur[k] == pre[k]);
+                    }
+                    if h == x@.start || h == x@.end { assert(cur[pre.len() as int] == x); }
+                    if edge_has(cur, h) {
+                        let k = choose|k: int| 0 <= k < cur.len() && ((#[trigger] cur[k])@.start == h || cur[k]@.end == h);
+                        if k < pre.len() { assert(cur[k] == pre[k]); }
+                    }
+                }
+                assert(edges@ =~= ISet::new(|h: int| edge_has(cur, h)));
+            }
+//@hint before "edges" last
+        proof { assert(self.0@.subrange(0, self.0@.len() as int) =~= self.0@); }
 //@end
 
 } // impl BlockRanges
